@@ -34,16 +34,97 @@ def run_plugin(outdir):
 
 
 # ------------------------------------------------------------------------------------------------ independent search
+CS_RESERVED = set("""abstract as base bool break byte case catch char checked class const continue decimal default delegate do double else
+enum event explicit extern false finally fixed float for foreach goto if implicit in int interface internal is lock long namespace new
+null object operator out override params private protected public readonly ref return sbyte sealed short sizeof stackalloc static string
+struct switch this throw true try typeof uint ulong unchecked unsafe ushort using virtual void volatile while""".split())
+
+# plugin call sites of the defects this check can attribute (used as stable finding keys by C06)
+SITE_LITERAL = "dotnet:literal-property-type"                   # generate_literal_type / generate_name: helper record named like an existing class
+SITE_KEYWORD = "dotnet:constructor-parameter-keyword"           # generate_constructor / get_special_case_property_name
+SITE_NO_TYPENAME = "dotnet:request-without-typename-response-name"   # generate_all_classes: response_name == request_name when typeName is absent
+
+
+def parse_cs_type(text):
+    """C# type text -> (tree, top_level_nullable); trees: ("N", name) | ("G", name, [trees]) | ("T", [trees]); a nested `T?` is ("G", "?", [T])"""
+    s = re.sub(r"\s+", "", text)
+    pos = [0]
+
+    def ty():
+        if pos[0] < len(s) and s[pos[0]] == "(":
+            pos[0] += 1
+            items = []
+            while True:
+                t, nl = ty()
+                items.append(("G", "?", [t]) if nl else t)
+                if s[pos[0]] == ",":
+                    pos[0] += 1
+                    continue
+                if s[pos[0]] == ")":
+                    pos[0] += 1
+                    break
+                raise ValueError(text)
+            t = ("T", items)
+        else:
+            m = re.compile(r"[A-Za-z_][\w.]*").match(s, pos[0])
+            if not m:
+                raise ValueError(text)
+            pos[0] = m.end()
+            if pos[0] < len(s) and s[pos[0]] == "<":
+                pos[0] += 1
+                args = []
+                while True:
+                    t, nl = ty()
+                    args.append(("G", "?", [t]) if nl else t)
+                    if s[pos[0]] == ",":
+                        pos[0] += 1
+                        continue
+                    if s[pos[0]] == ">":
+                        pos[0] += 1
+                        break
+                    raise ValueError(text)
+                t = ("G", m.group(0), args)
+            else:
+                t = ("N", m.group(0))
+        nl = False
+        if pos[0] < len(s) and s[pos[0]] == "?":
+            pos[0] += 1
+            nl = True
+        return t, nl
+    try:
+        t, nl = ty()
+        if pos[0] != len(s):
+            raise ValueError(text)
+        return t, nl
+    except (ValueError, IndexError):
+        return ("N", "<unparsed:%s>" % text), False
+
+
+def show(t):
+    if t is None:
+        return "<outside the mapping>"
+    if t[0] == "N":
+        return t[1]
+    if t[0] == "G":
+        return "%s?" % show(t[2][0]) if t[1] == "?" else "%s<%s>" % (t[1], ", ".join(show(x) for x in t[2]))
+    if t[0] == "T":
+        return "(%s)" % ", ".join(show(x) for x in t[1])
+    if t[0] == "ALIAS":
+        return "<generated class : %s>" % show(t[1])
+    if t[0] == "LIT":
+        return "<generated record {%s}>" % "; ".join("%s%s %s%s" % (show(x), "?" if nl else "", k, " [Ignore]" if ig else "") for k, x, nl, ig in t[1])
+    return repr(t)
+
+
 class Search:
     """Regex reading of the plugin output against lsp.json.  Deliberately shares no code with lib/x_cs.py."""
-    GEN = object()
 
     def __init__(self, outdir):
         import mmlib
         self.mm = mmlib.MMView()
         self.root = os.path.join(outdir, "lsprotocol")
         self.issues = []
-        self.counts = {"classes": 0, "members": 0, "enums": 0, "enum_values": 0, "requests": 0, "notifications": 0, "method_constants": 0}
+        self.counts = {"classes": 0, "members": 0, "literal_classes": 0, "enums": 0, "enum_values": 0, "requests": 0, "notifications": 0, "method_constants": 0}
         self.keys = []
         self._src = {}
 
@@ -54,74 +135,162 @@ class Search:
             self._src[cls] = open(p, encoding="utf-8").read() if os.path.exists(p) else None
         return self._src[cls]
 
-    def issue(self, kind, cls, member, expected, observed, mm_entry, cs_text, file=None):
-        self.issues.append({"kind": kind, "class": cls, "file": (file or cls) + ".cs", "member": member, "expected": expected,
-                            "observed": observed, "metamodel": mm_entry, "cs_text": cs_text})
-
-    # -- the documented mapping
-    def cs_of(self, t):
-        E = self.mm.E
-        k = t["kind"]
-        if k == "base":
-            return {"string": "string", "RegExp": "string", "DocumentUri": "Uri", "URI": "Uri", "decimal": "float", "integer": "int",
-                    "uinteger": "long", "boolean": "bool", "null": "object"}[t["name"]]
-        if k == "reference":
-            n = t["name"]
-            if n in E and E[n].get("supportsCustomValues"):
-                if all(isinstance(v["value"], str) for v in E[n]["values"]):
-                    return "string"
-                if all(isinstance(v["value"], int) for v in E[n]["values"]):
-                    return "int"
-                return None
-            return "CommandAction" if n == "Command" else n
-        if k == "array":
-            e = self.cs_of(t["element"])
-            return e if e is None or e is self.GEN else "ImmutableArray<%s>" % e
-        if k == "map":
-            kk = self.cs_of(t["key"])
-            v = t["value"]
-            if v["kind"] == "or" and len([i for i in v["items"] if not self.is_null(i)]) >= 2:
-                inner = self.cs_of(v)
-                return None if inner is None or kk is None else ("DICT", kk, inner)
-            vv = self.cs_of(v)
-            return None if vv is None or kk is None or isinstance(vv, tuple) else "ImmutableDictionary<%s, %s>" % (kk, vv)
-        if k == "stringLiteral":
-            return "string"
-        if k == "literal":
-            return "LSPObject" if not t["value"]["properties"] else None
-        if k == "tuple":
-            its = [self.cs_of(i) for i in t["items"] if not self.is_null(i)]
-            return None if any(x is None or isinstance(x, tuple) for x in its) else "(%s)" % ", ".join(its)
-        if k == "or":
-            its = [i for i in t["items"] if not self.is_null(i)]
-            if len(its) == 1:
-                return self.cs_of(its[0])
-            if not its or all(i["kind"] == "literal" for i in its):
-                return None
-            sub = [self.cs_of(i) for i in its]
-            return None if any(x is None or isinstance(x, tuple) for x in sub) else "OrType<%s>" % ", ".join(sub)
-        return None
+    def issue(self, kind, cls, member, expected, observed, mm_entry, cs_text, file=None, site=None):
+        d = {"kind": kind, "class": cls, "file": (file or cls) + ".cs", "member": member, "expected": expected,
+             "observed": observed, "metamodel": mm_entry, "cs_text": cs_text}
+        if site:
+            d["site"] = site
+        self.issues.append(d)
 
     @staticmethod
     def is_null(t):
         return t["kind"] == "base" and t["name"] == "null"
 
     @staticmethod
-    def norm(s):
-        return re.sub(r"\s+", "", s)
+    def is_coll(t):
+        return t is not None and t[0] == "G" and t[1] in ("ImmutableArray", "ImmutableDictionary")
+
+    def variant_literals(self, its):
+        """the plugin merges such a union into one class (outside the mapping of this check)"""
+        if not all(i["kind"] == "literal" for i in its):
+            return False
+
+        def hov(name):
+            occ = [p for l in its for p in l["value"]["properties"] if p["name"] == name]
+            return any(p.get("optional") for p in occ) and len(occ) == len(its)
+        return all(hov(p["name"]) for p in its[0]["value"]["properties"]) if its else True
+
+    # -- the documented mapping: metamodel type -> expected tree (None: outside the mapping)
+    def cs_of(self, t):
+        E = self.mm.E
+        k = t["kind"]
+        if k == "base":
+            return ("N", {"string": "string", "RegExp": "string", "DocumentUri": "Uri", "URI": "Uri", "decimal": "float", "integer": "int",
+                          "uinteger": "long", "boolean": "bool", "null": "object"}[t["name"]])
+        if k == "reference":
+            n = t["name"]
+            if n in E and E[n].get("supportsCustomValues"):
+                if all(isinstance(v["value"], str) for v in E[n]["values"]):
+                    return ("N", "string")
+                if all(isinstance(v["value"], int) for v in E[n]["values"]):
+                    return ("N", "int")
+                return None
+            return ("N", "CommandAction" if n == "Command" else n)
+        if k == "array":
+            e = self.cs_of(t["element"])
+            return None if e is None else ("G", "ImmutableArray", [e])
+        if k == "map":
+            kk, v = self.cs_of(t["key"]), t["value"]
+            vv = self.cs_of(v)
+            if kk is None or vv is None:
+                return None
+            if v["kind"] == "or" and len([i for i in v["items"] if not self.is_null(i)]) >= 2:
+                vv = ("ALIAS", vv)
+            return ("G", "ImmutableDictionary", [kk, vv])
+        if k == "stringLiteral":
+            return ("N", "string")
+        if k == "literal":
+            ps = t["value"]["properties"]
+            if not ps:
+                return ("N", "LSPObject")
+            ms = []
+            for p in ps:
+                c = self.cs_of(p["type"])
+                if c is None:
+                    return None
+                opt, na = bool(p.get("optional")), self.mm.null_adm(p["type"])
+                ms.append((p["name"], c, (opt or na) and not self.is_coll(c), opt and not na and not self.is_coll(c)))
+            return ("LIT", ms)
+        if k == "tuple":
+            its = [self.cs_of(i) for i in t["items"] if not self.is_null(i)]
+            return None if any(x is None for x in its) else ("T", its)
+        if k == "or":
+            its = [i for i in t["items"] if not self.is_null(i)]
+            if len(its) == 1:
+                return self.cs_of(its[0])
+            if not its or self.variant_literals(its):
+                return None
+            sub = [self.cs_of(i) for i in its]
+            return None if any(x is None for x in sub) else ("G", "OrType", sub)
+        return None
+
+    # -- does a declared type (tree) realise an expected tree?  returns None or a reason
+    def match(self, exp, got):
+        if exp is None:
+            return "metamodel type outside the documented mapping"
+        if exp[0] == "N":
+            return None if got == exp else "expected %s, declared %s" % (show(exp), show(got))
+        if exp[0] == "G":
+            if got[0] != "G" or got[1] != exp[1] or len(got[2]) != len(exp[2]):
+                return "expected %s, declared %s" % (show(exp), show(got))
+            for e, g in zip(exp[2], got[2]):
+                r = self.match(e, g)
+                if r:
+                    return r
+            return None
+        if exp[0] == "T":
+            if got[0] != "T" or len(got[1]) != len(exp[1]):
+                return "expected %s, declared %s" % (show(exp), show(got))
+            for e, g in zip(exp[1], got[1]):
+                r = self.match(e, g)
+                if r:
+                    return r
+            return None
+        if got[0] != "N":
+            return "expected %s, declared %s" % (show(exp), show(got))
+        v = got[1]
+        vsrc = self.src(v)
+        decl = re.search(r"((?:[ \t]*\[[^\n]*\][ \t]*\n)*)[ \t]*public\s+(?:record|class)\s+%s\b\s*(?::\s*([^\n{]+))?" % re.escape(v), vsrc) if vsrc else None
+        if not decl:
+            return "expected %s, declared %s which is no generated class" % (show(exp), v)
+        if exp[0] == "ALIAS":
+            if not decl.group(2):
+                return "%s has no base type, expected : %s" % (v, show(exp[1]))
+            bt, bnl = parse_cs_type(decl.group(2))
+            return self.match(exp[1], bt) if not bnl else "%s has a nullable base" % v
+        if exp[0] == "LIT":
+            self.counts["literal_classes"] += 1
+            if "[DataContract]" not in decl.group(1):
+                return "helper record %s lacks [DataContract]" % v
+            mems = self.members(vsrc)
+            ctor = self.ctor(vsrc)
+            want = [k for k, _, _, _ in exp[1]]
+            if sorted(mems) != sorted(want) or any(len(l) > 1 for l in mems.values()):
+                return "%s declares data members %s, the literal has %s" % (v, sorted(mems), sorted(want))
+            for k, e, nl, ig in exp[1]:
+                m = mems[k][0]
+                gt, gnl = parse_cs_type(m["type"])
+                r = self.match(e, gt)
+                if r:
+                    return "%s.%s: %s" % (v, k, r)
+                if gnl != nl:
+                    return "%s.%s: must %sbe nullable" % (v, k, "" if nl else "not ")
+                if m["ignore"] != ig:
+                    return "%s.%s: NullValueHandling.Ignore %s" % (v, k, "required" if ig else "forbidden")
+                if ctor is not None:
+                    if not self.assigned(ctor, m["ident"])[0]:
+                        return "%s.%s: not assigned in the [JsonConstructor]" % (v, k)
+                elif not m["settable"]:
+                    return "%s.%s: no [JsonConstructor] and no set/init accessor" % (v, k)
+            return None
+        return "unknown expectation %r" % (exp,)
 
     # -- structures
-    MEMBER = re.compile(r"((?:[ \t]*\[[^\n]*\][ \t]*\n)+)[ \t]*(?:public|private|protected|internal)?[ \t]*([^\n{;=]+?)[ \t]+(\w+)[ \t]*(?:\{|;|=)")
+    MEMBER = re.compile(r"((?:[ \t]*\[[^\n]*\][ \t]*\n)+)[ \t]*((?:(?:public|private|protected|internal|static|readonly)[ \t]+)*)([^\n{;=]+?)[ \t]+(\w+)[ \t]*(\{[^\n]*|;|=[^\n]*)")
     CTOR = re.compile(r"\[JsonConstructor\]\s*public\s+\w+\s*\((.*?)\)\s*\{(.*?)\n\s*\}", re.S)
 
     def members(self, src):
         res = {}
         for m in self.MEMBER.finditer(src):
-            at, ty, ident = m.groups()
+            at, mods, ty, ident, rest = m.groups()
             dm = re.search(r'DataMember\(\s*Name\s*=\s*"([^"]*)"\s*\)', at)
             if not dm:
                 continue
-            res.setdefault(dm.group(1), []).append({"ident": ident, "type": ty.strip(), "attrs": at, "text": (at + m.group(0)[len(at):]).strip()})
+            settable = bool(re.match(r"\{[^}]*?(?<!private )\b(set|init)\b", rest)) if rest.startswith("{") else "readonly" not in mods
+            res.setdefault(dm.group(1), []).append({
+                "ident": ident, "type": ty.strip(), "attrs": at, "settable": settable,
+                "ignore": bool(re.search(r"JsonProperty\(\s*NullValueHandling\s*=\s*NullValueHandling\.Ignore\s*\)", at)),
+                "text": (at + m.group(0)[len(at):]).strip()})
         return res
 
     def ctor(self, src):
@@ -131,6 +300,18 @@ class Search:
         params = [re.split(r"\s*=\s*", x.strip())[0].split()[-1] for x in self.split_top(m.group(1)) if x.strip()]
         assigns = re.findall(r"(?:this\.)?(\w+)\s*=\s*(\w+)\s*;", m.group(2))
         return params, assigns
+
+    @staticmethod
+    def assigned(ctor, ident):
+        """(ok, reserved-word parameter or None)"""
+        bad = None
+        for lhs, rhs in ctor[1]:
+            if lhs == ident and rhs in ctor[0]:
+                if rhs in CS_RESERVED:
+                    bad = rhs
+                else:
+                    return True, None
+        return False, bad
 
     @staticmethod
     def split_top(s):
@@ -175,6 +356,11 @@ class Search:
                     walk(r[f])
         return seen
 
+    @staticmethod
+    def has_literal(t):
+        return t is not None and (t[0] == "LIT" or (t[0] in ("G",) and any(Search.has_literal(x) for x in t[2]))
+                                  or (t[0] == "T" and any(Search.has_literal(x) for x in t[1])) or (t[0] == "ALIAS" and Search.has_literal(t[1])))
+
     def structures(self):
         used = self.type_positions()
         for sn, s in self.mm.S.items():
@@ -206,37 +392,32 @@ class Search:
                     continue
                 self.counts["members"] += 1
                 m = mems[pn][0]
-                decl = m["type"]
-                nullable = decl.endswith("?")
-                got = decl[:-1] if nullable else decl
+                got, nullable = parse_cs_type(m["type"])
                 exp = self.cs_of(pr["type"])
-                coll = False
-                if exp is None:
-                    self.issue("type", cls, pn, "a type inside the documented mapping", decl, entry, m["text"], file=sn)
-                elif isinstance(exp, tuple):
-                    coll = True
-                    mm_ = re.fullmatch(r"ImmutableDictionary<%s,\s*(\w+)>" % re.escape(exp[1]), got)
-                    vsrc = self.src(mm_.group(1)) if mm_ else None
-                    base = re.search(r"public\s+(?:record|class)\s+%s\s*:\s*([^\n{]+)" % re.escape(mm_.group(1)), vsrc) if vsrc else None
-                    if not (base and self.norm(base.group(1)) == self.norm(exp[2])):
-                        self.issue("type", cls, pn, "ImmutableDictionary<%s, V> with V : %s" % (exp[1], exp[2]), decl, entry, m["text"], file=sn)
-                else:
-                    coll = exp.startswith("ImmutableArray<") or exp.startswith("ImmutableDictionary<")
-                    if self.norm(got) != self.norm(exp):
-                        self.issue("type", cls, pn, exp, decl, entry, m["text"], file=sn)
+                why = self.match(exp, got)
+                if why:
+                    self.issue("type", cls, pn, show(exp), m["type"] + "  (" + why + ")", entry, m["text"], file=sn,
+                               site=SITE_LITERAL if self.has_literal(exp) else None)
+                coll = self.is_coll(exp)
                 opt, na = bool(pr.get("optional")), self.mm.null_adm(pr["type"])
                 want_null = (opt or na) and not coll
                 want_ign = opt and not na and not coll
                 if nullable != want_null:
-                    self.issue("nullable", cls, pn, "nullable" if want_null else "not nullable", decl, entry, m["text"], file=sn)
-                ign = bool(re.search(r"JsonProperty\(\s*NullValueHandling\s*=\s*NullValueHandling\.Ignore\s*\)", m["attrs"]))
-                if ign != want_ign:
+                    self.issue("nullable", cls, pn, "nullable" if want_null else "not nullable", m["type"], entry, m["text"], file=sn)
+                if m["ignore"] != want_ign:
                     self.issue("ignore", cls, pn, "NullValueHandling.Ignore " + ("required" if want_ign else "forbidden"),
-                               "present" if ign else "absent", entry, m["text"], file=sn)
-                ok = ctor is not None and any(lhs == m["ident"] and rhs in ctor[0] for lhs, rhs in ctor[1])
+                               "present" if m["ignore"] else "absent", entry, m["text"], file=sn)
+                ok, reserved = self.assigned(ctor, m["ident"]) if ctor is not None else (False, None)
                 if not ok:
+                    ctext = None
+                    if reserved:
+                        mm_ = re.search(r"[^\n]*\b%s\b\s*(?:=[^\n,]*)?,?\s*\n" % re.escape(reserved), self.CTOR.search(src).group(1) + "\n")
+                        ctext = ((mm_.group(0).strip() + "  ...  ") if mm_ else "") + "%s = %s;" % (m["ident"], reserved)
                     self.issue("ctor", cls, pn, "%s = <constructor parameter>; in the [JsonConstructor]" % m["ident"],
-                               "no [JsonConstructor]" if ctor is None else "assignments %s" % [a for a, _ in ctor[1]], entry, m["text"], file=sn)
+                               "no [JsonConstructor]" if ctor is None else
+                               ("the parameter is named `%s`, a C# reserved word: not an identifier, the constructor is not C#" % reserved if reserved
+                                else "assignments %s" % [a for a, _ in ctor[1]]),
+                               entry, ctext or m["text"], file=sn, site=SITE_KEYWORD if reserved else None)
 
     # -- enumerations
     def enumerations(self):
@@ -268,9 +449,11 @@ class Search:
                            "\n".join(l for l in body.split("\n") if l.strip())[:600])
 
     # -- messages
-    @staticmethod
-    def msg_name(entry, suffix):
+    def msg_name(self, entry, suffix, consts):
+        """typeName, else the name of the LSPMethods constant holding the method (the generated catalogue is the naming oracle)"""
         n = entry.get("typeName")
+        if not n:
+            n = next((c for c, v in consts if v == entry["method"]), None)
         if not n:
             return None
         return n if n.endswith(suffix) else n + suffix
@@ -298,22 +481,23 @@ class Search:
                 self.issue("methods", "LSPMethods", c, "a metamodel method", v, {}, 'public static string %s ... = "%s";' % (c, v))
         for r in d["requests"]:
             self.keys.append(("request", r["method"]))
-            n = self.msg_name(r, "Request")
+            me = {"request": r["method"], "typeName": r.get("typeName")}
+            n = self.msg_name(r, "Request", consts)
             if n is None:
-                self.issue("request-name", r["method"], "", "typeName", None, {"request": r["method"]}, None)
+                self.issue("methods", r["method"], "LSPMethods", 'typeName or a constant = "%s" to name the class' % r["method"], "neither", me, None, file="LSPMethods")
                 continue
             src = self.src(n)
             if src is None:
-                self.issue("class-missing", n, "", "a class for request " + r["method"], "no file", {"request": r["method"]}, None)
+                self.issue("class-missing", n, "", "a class for request " + r["method"], "no file", me, None)
             else:
                 self.counts["requests"] += 1
                 at, text = self.class_attrs(src, n)
                 m = re.search(r'\[LSPRequest\(\s*"([^"]*)"\s*,\s*typeof\(\s*(\w+)\s*\)', at or "")
                 if not m:
-                    self.issue("lsprequest", n, "LSPRequest", '[LSPRequest("%s", typeof(<Response>))]' % r["method"], "absent", {"request": r["method"]}, text)
+                    self.issue("lsprequest", n, "LSPRequest", '[LSPRequest("%s", typeof(<Response>))]' % r["method"], "absent", me, text)
                 else:
                     if m.group(1) != r["method"]:
-                        self.issue("method", n, "LSPRequest", r["method"], m.group(1), {"request": r["method"]}, text)
+                        self.issue("method", n, "LSPRequest", r["method"], m.group(1), me, text)
                     resp = m.group(2)
                     rsrc = self.src(resp)
                     rat, rtext = self.class_attrs(rsrc, resp) if rsrc else (None, None)
@@ -321,24 +505,26 @@ class Search:
                     if not back or back.group(1) != n:
                         self.issue("pairing", n, "LSPRequest", "typeof(R) with R carrying [LSPResponse(typeof(%s))]" % n,
                                    {"response_class": resp, "its_LSPResponse": back.group(1) if back else None, "exists": rsrc is not None},
-                                   {"request": r["method"]}, (text or "") + " // " + (rtext or "<no such class>"))
+                                   me, (text or "") + "  //  " + ((rat or "").strip() + " " + (rtext or "<no such class>")).strip(),
+                                   site=SITE_NO_TYPENAME if not r.get("typeName") else None)
                 self.direction(n, src, r, "request")
             if r["method"] not in values:
-                self.issue("methods", n, "LSPMethods", 'a constant = "%s"' % r["method"], "absent", {"request": r["method"]}, None, file="LSPMethods")
+                self.issue("methods", n, "LSPMethods", 'a constant = "%s"' % r["method"], "absent", me, None, file="LSPMethods")
         for x in d["notifications"]:
             self.keys.append(("notification", x["method"]))
-            n = self.msg_name(x, "Notification")
+            me = {"notification": x["method"], "typeName": x.get("typeName")}
+            n = self.msg_name(x, "Notification", consts)
             if n is None:
-                self.issue("notification-name", x["method"], "", "typeName", None, {"notification": x["method"]}, None)
+                self.issue("methods", x["method"], "LSPMethods", 'typeName or a constant = "%s" to name the class' % x["method"], "neither", me, None, file="LSPMethods")
                 continue
             src = self.src(n)
             if src is None:
-                self.issue("class-missing", n, "", "a class for notification " + x["method"], "no file", {"notification": x["method"]}, None)
+                self.issue("class-missing", n, "", "a class for notification " + x["method"], "no file", me, None)
             else:
                 self.counts["notifications"] += 1
                 self.direction(n, src, x, "notification")
             if x["method"] not in values:
-                self.issue("methods", n, "LSPMethods", 'a constant = "%s"' % x["method"], "absent", {"notification": x["method"]}, None, file="LSPMethods")
+                self.issue("methods", n, "LSPMethods", 'a constant = "%s"' % x["method"], "absent", me, None, file="LSPMethods")
 
     def run(self):
         self.structures()
@@ -417,21 +603,23 @@ def run(chk):
         chk.sample({"class": "Position", "flattened": list(s.mm.flat("Position"))} if "Position" in s.mm.S else {})
         chk.sample({"counts": s.counts})
 
-    by_kind = {}
+    by_kind, kinds = {}, set()
     for i in issues or []:
-        by_kind.setdefault(i["kind"], []).append(i)
-    for kind, lst in by_kind.items():
+        by_kind.setdefault((i["kind"], i.get("site")), []).append(i)
+        kinds.add(i["kind"])
+    for (kind, site), lst in by_kind.items():
         first = lst[0]
         chk.violation({"property": "C08", "kind": "generated C# differs from the metamodel: " + kind,
                        "input": first,
                        "expected": first["expected"], "observed_impl": first["observed"],
+                       "site": site, "all_sites": sorted({x for _, x in by_kind if x}),
                        "all": [{"class": i["class"], "member": i["member"], "expected": i["expected"], "observed": i["observed"]} for i in lst[:40]],
                        "count": len(lst),
                        "observed_model": [w for w in witnesses if kind_of(w.get("reason", "")) == kind][:40],
                        "obligation": [f[1] for f in fails] or ["search:plugin-output-vs-metamodel"],
                        "how_to_replay": "./check C08 --replay <this file>  (re-runs the dotnet plugin of the current tree and re-examines this class)"},
-                      tag=kind)
-    model_only = [w for w in witnesses if "reason" in w and kind_of(w["reason"]) not in by_kind]
+                      tag=kind + ("-" + site.split(":")[-1] if site else ""))
+    model_only = [w for w in witnesses if "reason" in w and kind_of(w["reason"]) not in kinds]
     if (fails and not by_kind) or model_only:
         chk.violation({"property": "C08", "kind": "obligation no longer checks",
                        "broken": [{"what": a, "name": b, "detail": c} for a, b, c in fails],
